@@ -9,6 +9,7 @@ package main
 // afterwards holds a value above the true sum of its week's files.
 
 import (
+	"bytes"
 	"encoding/binary"
 	"encoding/json"
 	"fmt"
@@ -213,6 +214,7 @@ func upExec(c *hlib.RunCtx, t *simrt.Tape) (*hlib.Violation, int) {
 		os.WriteFile(m.loc, []byte("not a directory"), 0666)
 	}
 	m.serverPolicy = t.Biased(4, 1, 2)
+	m.entropyFails = c.Prop == "C05" && t.Bool(1, 10)
 	s.Transport = m.transport
 	plan.install(s)
 	m.roundMode, m.roundAsof, _, _ = parseMode(filepath.Join(m.tele, "mode"))
@@ -290,9 +292,23 @@ func damageBytes(t *simrt.Tape, data []byte) {
 		}
 	case 1:
 		binary.LittleEndian.PutUint32(data[28:], uint32([]int{0, 8, 31, 1 << 20}[t.Draw(4)]))
-	case 2: // make the first non-empty bucket's record point to itself
+	case 2: // make a record point to itself: the first of a non-empty bucket, by preference one whose name is a stack with a ditto mark
 		h := binary.LittleEndian.Uint32(data[28:])
+		pick := ^uint32(0)
 		for b := uint32(0); b < 512; b++ {
+			off := binary.LittleEndian.Uint32(data[h+4+4*b:])
+			if off != 0 && int(off)+16 < len(data) {
+				if pick == ^uint32(0) {
+					pick = b
+				}
+				nl := binary.LittleEndian.Uint32(data[off+8:]) & 0xffffff
+				if int(off)+16+int(nl) <= len(data) && bytes.Contains(data[off+16:off+16+nl], []byte("\n\"")) {
+					pick = b
+					break
+				}
+			}
+		}
+		for b := pick; b < 512; b++ {
 			off := binary.LittleEndian.Uint32(data[h+4+4*b:])
 			if off != 0 && int(off)+16 < len(data) {
 				binary.LittleEndian.PutUint32(data[off+12:], off)
